@@ -11,6 +11,7 @@ import (
 //verif:harness VerifC17_Paths quick.maxpaths=80000 thorough.maxpaths=400000 timeout=2400
 //verif:harness VerifC17_PathBytes quick.maxpaths=60000 thorough.maxpaths=400000 timeout=2400 unwind=40
 //verif:harness VerifC17_CacheFull confirmbounds quick.maxpaths=20000 thorough.maxpaths=20000 timeout=1200 steps=40000000
+//verif:harness VerifC17_FieldNames quick.maxpaths=20000 thorough.maxpaths=100000 timeout=1800
 //verif:harness VerifC17_Getters quick.maxpaths=20000 thorough.maxpaths=20000 timeout=1200
 
 type zzC17Root struct {
@@ -440,4 +441,54 @@ func VerifC17_CacheFull() {
 	cnt := 0
 	_ = s.ForEach("items[1].leaf", func(i int, v any) error { cnt++; return nil })
 	zzAssert(cnt == 1, "C17.cachefull.foreach")
+}
+
+// json names of which one is a prefix of another, declared longest first
+type zzC17Tags struct {
+	UserID int    `json:"user_id"`
+	User   string `json:"user"`
+	Name   string `json:"name,omitempty"`
+}
+
+// VerifC17_FieldNames: a struct step resolves exactly the Go field names and
+// the json names - the names themselves, their proper prefixes, extensions
+// and case variants - as a path step below a map, below a pointer, and as
+// the root-data fallback of Lookup. (A solver variable for the name was
+// tried first: the path splitter forks per byte and the query did not finish
+// in 40 minutes, so the candidates are enumerated.)
+func VerifC17_FieldNames() {
+	names := []string{"user_id", "UserID", "user", "User", "name", "Name",
+		"use", "na", "user_", "u", "nam", "Use", "UserI", "userid", "names", "user_id2", "n", "USER", "omitempty", "name,omitempty"}
+	name := names[zzChoice("name", len(names))]
+	root := zzC17Tags{UserID: 7, User: "u", Name: "n"}
+	var want any
+	wok := true
+	switch name {
+	case "user_id", "UserID":
+		want = 7
+	case "user", "User":
+		want = "u"
+	case "name", "Name":
+		want = "n"
+	default:
+		wok = false
+	}
+	var got any
+	var ok bool
+	switch zzChoice("via", 4) {
+	case 0:
+		got, ok = NewStack(map[string]any{"acc": root}).Resolve("acc." + name)
+	case 1:
+		got, ok = NewStack(map[string]any{"acc": &root}).Resolve("acc['" + name + "']")
+	case 2:
+		got, ok = NewStackWithData(map[string]any{}, root).Lookup(name)
+	case 3:
+		got, ok = NewStackWithData(map[string]any{}, &root).Lookup(name)
+	}
+	zzNote("want", fmt.Sprint(want, wok))
+	zzNote("got", fmt.Sprint(got, ok))
+	zzAssert(ok == wok, "C17.fieldnames.presence")
+	if wok {
+		zzAssert(fmt.Sprint(got) == fmt.Sprint(want), "C17.fieldnames.value")
+	}
 }
